@@ -1732,7 +1732,9 @@ def subset_to_blocks(
     # These rest is copied from dask.array.core.py with slight modifications
     index = tuple(slice(k, k + 1) if isinstance(k, Integral) else k for k in index)
 
-    name = "groupby-cohort-" + tokenize(array, index)
+    # the reindexer is part of what a block of this layer holds: two cohorts whose
+    # block sets normalize to the same index must not share a name
+    name = "groupby-cohort-" + tokenize(array, index, reindexer)
     new_keys = array._key_array[index]
 
     squeezed = tuple(np.squeeze(i) if isinstance(i, np.ndarray) else i for i in index)
